@@ -47,7 +47,7 @@ def merge_spec(a, b, selfref=True):
 def gen_graph(rng, n_files=None):
     n = n_files or rng.randrange(2, 9)
     files = []
-    names_pool = ["p", "q", "r", "p", "s"]      # repeated names on purpose
+    names_pool = ["p", "q", "r", "p", "s", "P", "R", "Q"]      # repeated names on purpose; names that differ in letter case only
     used = set()
     pj = rng.choice([0.3, 0.3, 0.3, 1.0, 0.0])      # mostly mixed syntax; sometimes every file JSON, sometimes every file native
     for i in range(n):
